@@ -572,6 +572,8 @@ var pqlTokens = map[string]string{
 	"STORE": "Store", "UROW": "_row", "ARG": "f=1", "ARGL": "f=[1,2]", "ARGB": "f><[1,2]",
 	"ROWLP": "Row(", "CLEARROW": "ClearRow", "NL": "\n", "NUL": "\x00", "UTF": "\xff\xfe",
 	"OPTS": "Options", "COUNT": "Count", "NOT": "Not",
+	"STOREG": "Store(Row(f=1),g=1)", "STOREB": "Store(Row(f=1),f=\"x\")", "CLEARG": "ClearRow(g=1)",
+	"SETG": "Set(1,g=1)", "TOPNG": "TopN(g)", "ROWSG": "Rows(g)", "SUMG": "Sum(field=g)", "GROUPG": "GroupBy(Rows(g))",
 }
 
 // PQLText materialises a pql case.
